@@ -10,6 +10,7 @@ import (
 	"github.com/intel/fastgo/verif/env"
 	"github.com/intel/fastgo/verif/mc"
 	"github.com/intel/fastgo/verif/pieces"
+	"github.com/intel/fastgo/verif/synth"
 )
 
 // C11 — the Reader delivers what it already has: no waiting on input it does not need.
@@ -18,7 +19,7 @@ func init() {
 	register(&Prop{
 		ID:       "C11",
 		Category: "model_checking",
-		Rule: "streams with 1..3 sync-flush points made by fastgo and compress/* writers (flate, gzip, zlib) over pieces {3 B, 26 B, 300 B, 4200 B incompressible, 5000 B, 70 KB}; released prefix = up to each flush point and up to the end of the stream (incl. trailer); " +
+		Rule: "streams with 1..3 sync-flush points made by fastgo and compress/* writers (flate, gzip, zlib) over pieces {3 B, 26 B, 300 B, 4200 B incompressible, 5000 B, 70 KB}; synthesised streams (flate, zlib) in which the data before a sync-flush point, or the whole stream, ends 0..9 bytes after the point where the decoder's 64 KiB output window is full (stored lead ending 0, 1, 3 bytes before it; stored, fixed-literal or fixed-match block across it); released prefix = up to each flush point and up to the end of the stream (incl. trailer); " +
 			"delivery of the prefix in {one call, 1, 7, 24, 25 bytes per call}; behaviour after the prefix in {would-block forever, error alone, error together with the last data, unrelated bytes then EOF}; source in {plain io.Reader, bufio 16 / 4096 / 65536}; Read policy in {1, 4096, 1 MiB}; " +
 			"oracle: at the moment the Reader first asks for bytes beyond the prefix, or returns an error, it has already handed out all data encoded before that point (and io.EOF when the prefix is the whole stream, except gzip in multistream mode); 'blocks forever' is modelled by aborting the execution at the first over-read, no clock involved; non-trivial = the prefix encodes at least one byte",
 		Assumptions: []string{"a source that would block is modelled by a sentinel panic at the first Read beyond the released prefix"},
@@ -35,6 +36,91 @@ type flushedStream struct {
 	points []int // emitted bytes at each flush point; last entry = whole stream
 	datas  []int // data bytes written before each point
 	data   []byte
+	// chunkAfter: the small delivery sizes apply from this stream offset on (the long stored lead of the window-fill
+	// streams is delivered in as large pieces as the consumer takes)
+	chunkAfter int
+}
+
+// c11WindowFillStreams: the stream, or the part of it before a sync-flush point, ends just where the decoder's 64 KiB
+// output window is full, so that at the pause everything that is left of the released prefix may sit in the decoder's
+// bit buffer. A stored lead ends a bytes before the fill point; the next block (stored / fixed literals / fixed match)
+// carries a+e bytes; it is the final block, or it is followed by a sync marker, 10 more literals and the end.
+func c11WindowFillStreams(cfg *Cfg) []flushedStream {
+	g := newStreamGen(cfg)
+	var out []flushedStream
+	const F = 65536
+	for _, a := range []int{0, 1, 3} {
+		for _, e := range []int{0, 1, 2, 3, 4, 9} {
+			for kind := 0; kind < 3; kind++ {
+				for _, flushed := range []bool{false, true} {
+					for _, container := range []string{"flate", "zlib"} {
+						if container == "zlib" && (kind != 0 || a != 0) {
+							continue
+						}
+						lead := g.wfPrefix(F - a)
+						w := &synth.BitWriter{}
+						if container == "zlib" {
+							w.Byte(0x78)
+							w.Byte(0x9c)
+						}
+						for h := lead; len(h) > 0; {
+							n := len(h)
+							if n > 65535 {
+								n = 65535
+							}
+							synth.BuildTo(w, synth.Block{Type: 0, Stored: h[:n]})
+							h = h[n:]
+						}
+						at := (w.Len() + 7) / 8
+						data := append([]byte{}, lead...)
+						n := a + e
+						blk := synth.Block{Final: !flushed}
+						switch {
+						case kind == 0:
+							body := bytes.Repeat([]byte{'s'}, n)
+							blk.Type, blk.Stored = 0, body
+							data = append(data, body...)
+						case kind == 1 || n < 3:
+							blk.Type = 1
+							for i := 0; i < n; i++ {
+								blk.Syms = append(blk.Syms, synth.Sym{Kind: synth.SymLit, Lit: 'a' + i%3})
+								data = append(data, byte('a'+i%3))
+							}
+						default:
+							blk.Type = 1
+							blk.Syms = append(blk.Syms, synth.Sym{Kind: synth.SymMatch, Len: n, Dist: 17})
+							for i := 0; i < n; i++ {
+								data = append(data, data[len(data)-17])
+							}
+						}
+						synth.BuildTo(w, blk)
+						fs := flushedStream{kind: RK{Kind: container}, chunkAfter: at - 300}
+						if flushed {
+							synth.BuildTo(w, synth.Block{Type: 0}) // sync marker
+							fs.points = append(fs.points, (w.Len()+7)/8)
+							fs.datas = append(fs.datas, len(data))
+							tail := synth.Block{Final: true, Type: 1}
+							for i := 0; i < 10; i++ {
+								tail.Syms = append(tail.Syms, synth.Sym{Kind: synth.SymLit, Lit: 'z'})
+								data = append(data, 'z')
+							}
+							synth.BuildTo(w, tail)
+						}
+						stream := w.Bytes()
+						if container == "zlib" {
+							stream = append(stream, zlibTrailer(data)...)
+						}
+						fs.points = append(fs.points, len(stream))
+						fs.datas = append(fs.datas, len(data))
+						fs.bytes, fs.data = stream, data
+						fs.name = fmt.Sprintf("synth-%s[window-fill: stored lead to %d-%d, then %s block of %d bytes, flushed=%v]", container, F, a, []string{"stored", "fixed-literals", "fixed-match"}[kind], n, flushed)
+						out = append(out, fs)
+					}
+				}
+			}
+		}
+	}
+	return out
 }
 
 func c11Streams(cfg *Cfg) []flushedStream {
@@ -148,6 +234,7 @@ func gatedRead(r io.Reader, pol env.ReadPolicy) (out []byte, err error, blocked 
 
 func c11Harness(cfg *Cfg) func(x *mc.Exec) {
 	streams := c11Streams(cfg)
+	streams = append(streams, c11WindowFillStreams(cfg)...)
 	afters := []string{"would-block", "error-alone", "error-with-data", "unrelated-bytes"}
 	chunks := []int{0, 1, 7, 24, 25}
 	bufios := []int{0, 16, 4096, 65536}
@@ -168,7 +255,7 @@ func c11Harness(cfg *Cfg) func(x *mc.Exec) {
 		if fs.kind.Kind == "gzip" {
 			multi = x.Choose(2, "multistream") == 1
 		}
-		if len(fs.bytes) > 20000 && (chunk == 1 && bsz != 16 || pol.Name == "1" && chunk != 0) {
+		if len(fs.bytes) > 20000 && fs.chunkAfter == 0 && (chunk == 1 && bsz != 16 || pol.Name == "1" && chunk != 0) {
 			return // cost
 		}
 		whole := pi == len(fs.points)-1
@@ -180,6 +267,7 @@ func c11Harness(cfg *Cfg) func(x *mc.Exec) {
 		E := env.NewErr("after-prefix")
 		src := env.NewSource(fs.bytes)
 		src.Chunk = chunk
+		src.ChunkAfter = fs.chunkAfter
 		switch after {
 		case 0:
 			src.Limit = limit
